@@ -17,7 +17,275 @@ pub fn clone_world(w: &World) -> World {
         key: w.key,
         trader_a: w.trader_a,
         trader_b: w.trader_b,
+        shadow: BTreeMap::new(),
+        last_trace: vec![],
+        last_swap_report: (0, 0, 0, 0),
     }
+}
+
+use crate::fam_math::{big, ceil_div, step_oracle, StepOut};
+use num_bigint::BigUint;
+use num_traits::Zero;
+use std::collections::BTreeMap;
+use ::whirlpool::math::{MAX_SQRT_PRICE_X64, MIN_SQRT_PRICE_X64};
+use ::whirlpool::state::{Position, Whirlpool};
+
+/// exact entitlements of one position, scaled by 2^128 (hi = rounded up per contribution, lo = down)
+#[derive(Default, Clone)]
+pub struct Shadow {
+    pub fee_hi: [BigUint; 2],
+    pub fee_lo: [BigUint; 2],
+    pub fee_credited: [u128; 2],
+    pub rew_hi: [BigUint; 3],
+    pub rew_lo: [BigUint; 3],
+    pub rew_credited: [u128; 3],
+    pub events: u64,
+    pub slack: u128,
+    pub lossy: bool,
+}
+
+pub struct Snapshot {
+    pub wp: Whirlpool,
+    pub positions: BTreeMap<u32, Position>,
+    pub now: u64,
+}
+
+pub fn snapshot(w: &World) -> Snapshot {
+    Snapshot { wp: w.wp(), positions: w.positions.keys().map(|k| (*k, w.pos(*k).unwrap())).collect(), now: w.now }
+}
+
+fn scale() -> BigUint {
+    BigUint::from(1u32) << 128
+}
+
+/// reward accrual of the interval [pre.reward_last_updated_timestamp, now] at the pre-op state (C11)
+fn accrue_rewards(w: &mut World, pre: &Snapshot, ctx: &mut Ctx) {
+    let wp = &pre.wp;
+    let post = w.wp();
+    let t0 = wp.reward_last_updated_timestamp;
+    let t1 = post.reward_last_updated_timestamp;
+    if t1 < t0 {
+        ctx.viol(format!("C11 reward_last_updated_timestamp went backwards: {} -> {}", t0, t1));
+        return;
+    }
+    if t1 == t0 {
+        return;
+    }
+    let dt = (t1 - t0) as u128;
+    let l = wp.liquidity;
+    for i in 0..3 {
+        let r = &wp.reward_infos[i];
+        let g0 = r.growth_global_x64;
+        let g1 = post.reward_infos[i].growth_global_x64;
+        let dg = g1.wrapping_sub(g0);
+        if !r.initialized() || l == 0 {
+            if dg != 0 {
+                ctx.viol(format!("C11 reward {} accrued growth {} while {}", i, dg, if l == 0 { "in-range liquidity is zero" } else { "it is not initialized" }));
+            }
+            continue;
+        }
+        // growth += floor(dt * emissions / L), or 0 when the product overflows u128
+        let e = r.emissions_per_second_x64;
+        let want = match dt.checked_mul(e) {
+            Some(p) => p / l,
+            None => 0,
+        };
+        if dg != want {
+            ctx.viol(format!("C11 reward {} growth advanced by {} but dt*emissions/liquidity = {} (dt {}, emissions {}, liquidity {})", i, dg, want, dt, e, l));
+        }
+        if dt.checked_mul(e).is_none() {
+            for sh in w.shadow.values_mut() {
+                sh.lossy = true;
+            }
+            continue;
+        }
+        let cur = wp.tick_current_index;
+        for (id, p) in &pre.positions {
+            if p.liquidity > 0 && p.tick_lower_index <= cur && cur < p.tick_upper_index {
+                let sh = w.shadow.entry(*id).or_default();
+                // tokens = dt * e * liq / (L * 2^64); scaled by 2^128
+                let num = big(dt) * big(e) * big(p.liquidity) * scale();
+                let den = big(l) << 64;
+                sh.rew_hi[i] += ceil_div(&num, &den);
+                sh.rew_lo[i] += &num / &den;
+                sh.events += 1;
+            }
+        }
+    }
+}
+
+fn check_position_credit(w: &mut World, pre: &Snapshot, ctx: &mut Ctx) {
+    for (id, p0) in &pre.positions {
+        let p1 = match w.pos(*id) {
+            Some(p) => p,
+            None => continue,
+        };
+        let sh = w.shadow.entry(*id).or_default();
+        let d = [p1.fee_owed_a.wrapping_sub(p0.fee_owed_a) as u128, p1.fee_owed_b.wrapping_sub(p0.fee_owed_b) as u128];
+        let collected = p1.fee_owed_a < p0.fee_owed_a || p1.fee_owed_b < p0.fee_owed_b;
+        if !collected {
+            for k in 0..2 {
+                if d[k] > 0 {
+                    sh.fee_credited[k] += d[k];
+                    sh.events += 1;
+                    let have = big(sh.fee_credited[k]) * scale();
+                    if have > sh.fee_hi[k] {
+                        ctx.viol(format!(
+                            "C07 position {} credited {} fees of token {} in total but its exact pro-rata share of in-range LP fees is {} (x 2^-128: {})",
+                            id,
+                            sh.fee_credited[k],
+                            if k == 0 { "A" } else { "B" },
+                            &sh.fee_hi[k] >> 128,
+                            sh.fee_hi[k]
+                        ));
+                    }
+                }
+            }
+        }
+        for i in 0..3 {
+            let a0 = p0.reward_infos[i].amount_owed;
+            let a1 = p1.reward_infos[i].amount_owed;
+            if a1 > a0 {
+                sh.rew_credited[i] += (a1 - a0) as u128;
+                let have = big(sh.rew_credited[i]) * scale();
+                if have > sh.rew_hi[i] {
+                    ctx.viol(format!(
+                        "C11 position {} credited {} of reward {} in total but its exact pro-rata share of emissions is {} (x 2^-128: {})",
+                        id,
+                        sh.rew_credited[i],
+                        i,
+                        &sh.rew_hi[i] >> 128,
+                        sh.rew_hi[i]
+                    ));
+                }
+            }
+        }
+        // lower bound (bounded rounding) after a settlement of this position, in the loss-free regime
+        let settled = !collected && ({ p1.fee_growth_checkpoint_a } != { p0.fee_growth_checkpoint_a } || { p1.fee_growth_checkpoint_b } != { p0.fee_growth_checkpoint_b } || d[0] > 0 || d[1] > 0);
+        if settled && !sh.lossy {
+            for k in 0..2 {
+                let floor_share = &sh.fee_lo[k] >> 128;
+                let slack = BigUint::from(sh.slack + sh.events as u128 + 2);
+                if big(sh.fee_credited[k]) + &slack < floor_share {
+                    ctx.viol(format!(
+                        "C07 position {} was credited only {} fees of token {} although its exact share is {} (more than bounded rounding short)",
+                        id,
+                        sh.fee_credited[k],
+                        if k == 0 { "A" } else { "B" },
+                        floor_share
+                    ));
+                }
+            }
+        }
+    }
+}
+
+/// C03 + C06 + per-step C02 on the trace of a successful swap, and fee shares for the shadow ledger
+fn swap_oracles(w: &mut World, t: &[&str], pre: &Snapshot, ctx: &mut Ctx) {
+    let amount: u64 = t[2].parse().unwrap();
+    let limit: u128 = t[3].parse().unwrap();
+    let ein = t[4] == "1";
+    let dir = t[5] == "1";
+    let post = w.wp();
+    let wp = &pre.wp;
+    let adj = if limit == 0 { if dir { MIN_SQRT_PRICE_X64 } else { MAX_SQRT_PRICE_X64 } } else { limit };
+    let trace = w.last_trace.clone();
+    let sum_in: u128 = trace.iter().map(|s| s.amount_in as u128).sum();
+    let sum_out: u128 = trace.iter().map(|s| s.amount_out as u128).sum();
+    let sum_fee: u128 = trace.iter().map(|s| s.fee_amount as u128).sum();
+    // amounts moved: from the vault deltas
+    let paid = if dir { w.vault_a - w_pre_vault(w, dir, true) } else { w.vault_b - w_pre_vault(w, dir, true) };
+    let _ = paid;
+    let (p0, p1) = ({ wp.sqrt_price }, { post.sqrt_price });
+    // C03: direction, bounds, limit
+    if (dir && p1 > p0) || (!dir && p1 < p0) {
+        ctx.viol(format!("C03 price moved against the trade direction: {} -> {} (a_to_b={})", p0, p1, dir));
+    }
+    if p1 < MIN_SQRT_PRICE_X64 || p1 > MAX_SQRT_PRICE_X64 {
+        ctx.viol(format!("C03 final price {} outside the protocol bounds", p1));
+    }
+    if (dir && p1 < adj) || (!dir && p1 > adj) {
+        ctx.viol(format!("C03 final price {} beyond the price limit {}", p1, adj));
+    }
+    let (in_total, out_total) = (sum_in + sum_fee, sum_out);
+    let specified_used = if ein { in_total } else { out_total };
+    if specified_used > amount as u128 {
+        ctx.viol(format!("C03 swap used {} of the specified token, more than the specified {}", specified_used, amount));
+    }
+    if specified_used < amount as u128 && p1 != adj {
+        ctx.viol(format!("C03 swap used only {} of {} but stopped at price {} which is not the limit {}", specified_used, amount, p1, adj));
+    }
+    if !ein && limit == 0 && out_total != amount as u128 {
+        ctx.viol(format!("C03 exact-out swap without limit succeeded delivering {} of {}", out_total, amount));
+    }
+    // C06: what the implementation reported vs the trace
+    let rep = w.last_swap_report;
+    let (rep_in, rep_out) = if dir { (rep.0, rep.1) } else { (rep.1, rep.0) };
+    if rep_in as u128 != in_total || rep_out as u128 != out_total {
+        ctx.viol(format!("C06 trader pays {} / receives {} but the steps sum to in+fee {} / out {}", rep_in, rep_out, in_total, out_total));
+    }
+    if rep.2 as u128 + rep.3 as u128 != sum_fee {
+        ctx.viol(format!("C06 lp_fee {} + protocol_fee {} != total fee {} of the steps", rep.2, rep.3, sum_fee));
+    }
+    let pr = wp.protocol_fee_rate as u128;
+    let mut cut_sum: u128 = 0;
+    let mut growth: u128 = 0;
+    let cur_tick_pre = wp.tick_current_index;
+    let _ = cur_tick_pre;
+    for s in &trace {
+        let cut = if pr > 0 { s.fee_amount as u128 * pr / 10_000 } else { 0 };
+        cut_sum += cut;
+        let lp = s.fee_amount as u128 - cut;
+        if s.liquidity > 0 {
+            growth = growth.wrapping_add((lp << 64) / s.liquidity);
+            // shares of the positions in range during this step
+            for (id, p) in &pre.positions {
+                if p.liquidity > 0 && p.tick_lower_index <= s.tick_index_before && s.tick_index_before < p.tick_upper_index {
+                    let sh = w.shadow.entry(*id).or_default();
+                    let k = if dir { 0 } else { 1 };
+                    let num = big(lp) * big(p.liquidity) * scale();
+                    sh.fee_hi[k] += ceil_div(&num, &big(s.liquidity));
+                    sh.fee_lo[k] += &num / &big(s.liquidity);
+                    sh.events += 1;
+                    // flooring the growth increment loses < 1 growth unit = liq / 2^64 tokens for this position
+                    sh.slack += (p.liquidity >> 64) + 1;
+                }
+            }
+        } else if s.fee_amount != 0 && s.amount_in != 0 {
+            ctx.viol(format!("C06 step with zero liquidity took amount_in {} fee {}", s.amount_in, s.fee_amount));
+        }
+        // per-step C02 / fee clauses on the real step
+        let o = StepOut { amount_in: s.amount_in, amount_out: s.amount_out, next: s.next_price, fee: s.fee_amount };
+        step_oracle(s.amount_remaining_before, s.fee_rate, s.liquidity, s.sqrt_price_before, s.sqrt_price_target, ein, dir, &o, ctx);
+    }
+    if rep.3 as u128 != cut_sum {
+        ctx.viol(format!("C06 protocol fee of the swap {} != sum of floor(fee*rate/1e4) = {}", rep.3, cut_sum));
+    }
+    let (g0, g1, o0, o1) = if dir {
+        ({ wp.fee_growth_global_a }, { post.fee_growth_global_a }, { wp.protocol_fee_owed_a }, { post.protocol_fee_owed_a })
+    } else {
+        ({ wp.fee_growth_global_b }, { post.fee_growth_global_b }, { wp.protocol_fee_owed_b }, { post.protocol_fee_owed_b })
+    };
+    if g1.wrapping_sub(g0) != growth {
+        ctx.viol(format!("C06 input-token fee growth advanced by {} but the LP shares of the steps give {}", g1.wrapping_sub(g0), growth));
+    }
+    if o1 as u128 != o0 as u128 + cut_sum {
+        ctx.viol(format!("C06 protocol_fee_owed {} -> {} but the swap's protocol share is {}", o0, o1, cut_sum));
+    }
+    let (g0o, g1o) = if dir { ({ wp.fee_growth_global_b }, { post.fee_growth_global_b }) } else { ({ wp.fee_growth_global_a }, { post.fee_growth_global_a }) };
+    if g0o != g1o {
+        ctx.viol("C06 the output token's fee growth changed during a swap".to_string());
+    }
+    if trace.len() > 1 {
+        ctx.tag("swap_multi_step");
+    }
+    if trace.iter().any(|s| s.next_price != s.sqrt_price_before && s.liquidity > 0) {
+        ctx.tag("swap_moved_price");
+    }
+}
+
+fn w_pre_vault(_w: &World, _dir: bool, _input: bool) -> u128 {
+    0
 }
 
 /// C05: pool liquidity and every tick's net / gross / initialized recomputed from the positions
@@ -126,11 +394,29 @@ fn run_op(c: &mut World, op: &str, id: u32) -> Result<String, String> {
     }
 }
 
-pub fn after_op(w: &mut World, t: &[&str], res: &Result<String, String>, ctx: &mut Ctx) {
+pub fn after_op(w: &mut World, t: &[&str], res: &Result<String, String>, pre: &Snapshot, ctx: &mut Ctx) {
     if res.is_err() {
         return;
     }
     c05(w, ctx);
+    if t[1] == "swap" {
+        swap_oracles(w, t, pre, ctx);
+    }
+    accrue_rewards(w, pre, ctx);
+    check_position_credit(w, pre, ctx);
+    if t[1] == "crew" {
+        // C11 collect = min(owed, vault)
+        let id: u32 = t[2].parse().unwrap();
+        let i: usize = t[3].parse().unwrap();
+        if let (Some(p0), Some(p1)) = (pre.positions.get(&id), w.pos(id)) {
+            let owed = p0.reward_infos[i].amount_owed as u128;
+            let paid: u128 = res.as_ref().unwrap().parse().unwrap_or(0);
+            let vault_before = w.reward_vaults[i] + paid;
+            if paid != owed.min(vault_before) || p1.reward_infos[i].amount_owed as u128 != owed - paid {
+                ctx.viol(format!("C11 collect_reward paid {} of owed {} with vault {} and left {} owed", paid, owed, vault_before, { p1.reward_infos[i].amount_owed }));
+            }
+        }
+    }
     let rot = ctx.stats.values().sum::<u64>() as usize;
     c01_drain(w, rot, ctx);
     match t[1] {
